@@ -221,9 +221,14 @@ class ProgGen:
     def step(self, ci):
         rng = self.rng
         info = self.infos[ci]
+        if getattr(self, "pending", None):
+            # the question that looks at an object right after it was changed in place
+            st = self.pending.pop(0)
+            st["id"] = self.sid()
+            return st
         r = rng.random()
         sid = self.sid()
-        if r < 0.62:
+        if r < 0.56:
             pool = self.pools[ci]
             if pool and rng.random() < 0.55:
                 q = rng.choice(pool)
@@ -231,37 +236,49 @@ class ProgGen:
                 q = self.question(ci)
                 pool.append(q)
             return {"id": sid, "c": ci, "k": "ask", "q": q}
-        if r < 0.70:
+        if r < 0.64:
             line = self.define_line(ci)
             if line:
                 return {"id": sid, "c": ci, "k": "define", "line": line}
             return {"id": sid, "c": ci, "k": "gc"}
-        if r < 0.78 and info.contexts:
+        if r < 0.72 and info.contexts:
             name, _, has_par = rng.choice(info.contexts)
             kw = {}
             if has_par and rng.random() < 0.5:
                 kw = {"n1" if info.client["kind"] == "gen" else "n": rng.choice(["2", "3", "1.5"])}
             return {"id": sid, "c": ci, "k": "enable", "ctx": rng.choice(info.ctx_names[name]), "base": name, "kw": kw}
-        if r < 0.84:
+        if r < 0.78:
             return {"id": sid, "c": ci, "k": "disable", "n": rng.choice([1, 1, None])}
-        if r < 0.90 and info.systems:
+        if r < 0.84 and info.systems:
             return {"id": sid, "c": ci, "k": "system", "name": rng.choice(info.systems + [None])}
-        if r < 0.92:
+        if r < 0.86:
             return {"id": sid, "c": ci, "k": "newreg"}
-        if r < 0.93:
+        if r < 0.87:
             return {"id": sid, "c": ci, "k": "appreg"}
-        if r < 0.95:
+        if r < 0.89:
             return {"id": sid, "c": ci, "k": "lru"}
-        if r < 0.96:
+        if r < 0.90:
             return {"id": sid, "c": ci, "k": "gc"}
         # long-lived objects
         if self.nlong[ci] == 0 or rng.random() < 0.3:
             self.nlong[ci] += 1
             return {"id": sid, "c": ci, "k": "long_new", "i": self.nlong[ci], "x": rng.choice(["3", "0.5", "8"]),
-                    "u": self.unit_str(ci)}
+                    "u": self.unit_str(ci), "arr": rng.random() < 0.4}
         i = rng.randint(1, self.nlong[ci])
-        if rng.random() < 0.25:
-            return {"id": sid, "c": ci, "k": "long_ito", "i": i, "u": self.unit_str(ci)}
+        r2 = rng.random()
+        if r2 < 0.2:
+            s = {"id": sid, "c": ci, "k": "long_ito", "i": i, "u": self.unit_str(ci)}
+            if info.contexts and rng.random() < 0.5:
+                # in-place conversion across dimensions through a per-call context
+                s["ctx"] = rng.choice(info.contexts)[0]
+                if info.client["kind"] == "default":
+                    s["u"] = rng.choice(["terahertz", "nanometer", "eV", "kelvin", "1/cm"])
+            self.pending = [{"c": ci, "k": "long_ask", "i": i, "what": rng.choice(["dim", "dim", "toroot", "fmt"])}]
+            return s
+        if r2 < 0.40:
+            self.pending = [{"c": ci, "k": "long_ask", "i": i, "what": rng.choice(["dim", "dim", "toroot"])}]
+            return {"id": sid, "c": ci, "k": "long_iop", "i": i, "op": rng.choice(["imul", "idiv", "ipow"]),
+                    "u": self.unit_str(ci, False)}
         return {"id": sid, "c": ci, "k": "long_ask", "i": i, "what": rng.choice(["dim", "toroot", "tobase", "fmt", "udim", "compat"])}
 
 
@@ -606,7 +623,12 @@ class _Run:
             self.col.fault("gc_now")
         elif k == "long_new":
             try:
-                q = ureg.Quantity(num(s["x"]), s["u"])
+                mag = num(s["x"])
+                if s.get("arr"):
+                    import numpy as np
+
+                    mag = np.array([float(mag), 2.0])
+                q = ureg.Quantity(mag, s["u"])
                 u = ureg.Unit(s["u"])
             except Exception as e:
                 self.log.ev(s["id"], ci, "long_new-failed", type(e).__name__)
@@ -619,12 +641,36 @@ class _Run:
                 return
             q, u = self.longobj[ci][s["i"]]
             try:
-                q.ito(s["u"])
+                q.dimensionality  # the per-object memo exists before the units change in place
+                if s.get("ctx"):
+                    q.ito(s["u"], s["ctx"])
+                else:
+                    q.ito(s["u"])
             except Exception as e:
                 self.log.ev(s["id"], ci, "long_ito-failed", type(e).__name__)
                 return
             st.longs[s["i"]] = {"mag": core.norm_num(q.magnitude), "units": core.norm_units(q), "x": None}
             self.log.ev(s["id"], ci, "long_ito", s["i"], st.longs[s["i"]])
+        elif k == "long_iop":
+            if s["i"] not in self.longobj[ci]:
+                return
+            q, u = self.longobj[ci][s["i"]]
+            try:
+                q.dimensionality
+                other = ureg.Quantity(2.0, s["u"])
+                if s["op"] == "imul":
+                    q *= other
+                elif s["op"] == "idiv":
+                    q /= other
+                else:
+                    q **= 2
+            except Exception as e:
+                self.log.ev(s["id"], ci, "long_iop-failed", type(e).__name__)
+                return
+            self.longobj[ci][s["i"]] = (q, u)  # augmented assignment may rebind to a new object
+            st.longs[s["i"]] = {"mag": core.norm_num(q.magnitude), "units": core.norm_units(q), "x": None}
+            self.col.fault("state_change:inplace_arithmetic")
+            self.log.ev(s["id"], ci, "long_iop", s["i"], s["op"], st.longs[s["i"]])
         elif k == "long_ask":
             if s["i"] not in self.longobj[ci]:
                 return
